@@ -26,7 +26,7 @@ func init() {
 			return core.Verdict{Status: "skip", Detail: "not created: " + cerr.Error(), Features: feats}
 		}
 		if wf := oracle.WellFormed(res, expr.Type(), oracle.Window{Start: c.Start, End: c.End, Step: c.Step}); wf != "" {
-			if id := kf.Match(c); id != "" {
+			if id := kf.MatchAfterFailure(c); id != "" {
 				return core.Verdict{Status: "known", Known: id, Features: feats}
 			}
 			return core.Verdict{Status: "violation", Features: feats, Detail: fmt.Sprintf("%sill-formed result: %s\n%s\n", caseHdr(c), wf, res)}
